@@ -214,3 +214,81 @@ def overlap_read(rng):
 
 # the BAM record that crashed the pinned tree (IndexError in shift_polyt)
 WITNESS_READ = ("T" * 32 + "A" * 12 + "T" * 16 + "A" * 36, [[M, 32], [N, 100], [M, 28], [N, 100], [M, 36]])
+
+
+# ------------------------------------------------------------------------------------------------
+# clip variants and reads for the tail finder's projection (move_ref_coord / find_polya_tail / find_polyt_head)
+
+# what may stand before the first / after the last non-clip operation, read from the outside in:
+# SAM-valid: nothing, S, H, H S; not valid but accepted by the code: S H, S S, H H
+LEAD_CLIPS = [[], [[S, 2]], [[H, 2]], [[H, 1], [S, 2]], [[S, 1], [H, 1]], [[S, 1], [S, 1]], [[H, 1], [H, 1]]]
+
+
+def clip_variants(core):
+    """core CIGAR x every leading clip variant x every trailing clip variant (trailing = leading mirrored)"""
+    for lead in LEAD_CLIPS:
+        for trail in LEAD_CLIPS:
+            yield [list(x) for x in lead] + [list(x) for x in core] + [list(x) for x in reversed(trail)]
+
+
+def finder_read(rng):
+    """a record for find_polya_tail / find_polyt_head: [H][S] body [S][H] with indels (also right at the alignment
+    ends), =/X, an occasional P; the sequence is T-rich at the 5' end and A-rich at the 3' end over a random stretch
+    that may reach into the aligned part"""
+    cig = []
+    if rng.random() < 0.2:
+        cig.append([H, rng.randint(1, 20)])
+    lead_s = rng.choice([0, 0, rng.randint(1, 12), rng.randint(12, 50)])
+    if lead_s:
+        cig.append([S, lead_s])
+    if rng.random() < 0.12:
+        cig.append([rng.choice([I, D]), rng.randint(1, 6)])
+    nex = rng.randint(1, 4)
+    for e in range(nex):
+        if e:
+            cig.append([N, rng.randint(20, 2000)])
+        for p_ in range(rng.randint(1, 4)):
+            if p_:
+                cig.append([rng.choice([I, D, I, D, P]), rng.randint(1, 8)])
+            cig.append([rng.choice([M, M, M, EQ, X]), rng.choice([rng.randint(1, 6), rng.randint(6, 80)])])
+    if rng.random() < 0.15:
+        cig.append([rng.choice([I, I, D]), rng.randint(1, 8)])
+    trail_s = rng.choice([0, 0, rng.randint(1, 12), rng.randint(12, 50)])
+    if trail_s:
+        cig.append([S, trail_s])
+    if rng.random() < 0.2:
+        cig.append([H, rng.randint(1, 20)])
+    L = query_len(cig)
+    s = [rng.choice("ACGT") if rng.random() < 0.7 else rng.choice("CG") for _ in range(L)]
+    if rng.random() < 0.8:
+        n = min(L, trail_s + rng.choice([0, 0, 1, 2, 3, rng.randint(0, 70)]))
+        if n:
+            s[L - n:] = rich(rng, "A", n, rng.choice([1.0, 1.0, 0.9, 0.8, 0.6]))
+    if rng.random() < 0.6:
+        n = min(L, lead_s + rng.choice([0, 0, 1, 2, 3, rng.randint(0, 70)]))
+        if n:
+            s[:n] = rich(rng, "T", n, rng.choice([1.0, 1.0, 0.9, 0.8, 0.6]))
+    return "".join(s), cig
+
+
+COMP = {"A": "T", "C": "G", "G": "C", "T": "A", "N": "N", "a": "t", "c": "g", "g": "c", "t": "a", "n": "n"}
+
+
+def revcomp(seq):
+    return "".join(COMP[c] for c in reversed(seq))
+
+
+def clean_tail_read(rng):
+    """a read ending in `k` soft-clipped A's (k >= 20) preceded by >= 4 non-A aligned bases"""
+    cig = []
+    seq = ""
+    for e in range(rng.randint(1, 3)):
+        if e:
+            cig.append([N, rng.randint(80, 500)])
+        n = rng.randint(40, 200)
+        cig.append([M, n])
+        seq += "".join(rng.choice("ACGT") for _ in range(n))
+    k = rng.randint(20, 60)
+    seq = seq[:-4] + "".join(rng.choice("CGT") for _ in range(4)) + "A" * k
+    cig.append([S, k])
+    return seq, cig
